@@ -12,7 +12,11 @@ var webBundleIdSuffix = []byte{0x00, 0x01, 0x02}
 // combined with a 3-byte long suffix and transformed to lowercase. More information:
 // https://github.com/WICG/isolated-web-apps/blob/main/Scheme.md#signed-web-bundle-ids
 func GetWebBundleId(ed25519publicKey ed25519.PublicKey) string {
-	keyWithSuffix := append([]byte(ed25519publicKey), webBundleIdSuffix...)
+	// Copy the key first: appending to the caller's slice would write the suffix
+	// into its backing array whenever it has spare capacity.
+	keyWithSuffix := make([]byte, 0, len(ed25519publicKey)+len(webBundleIdSuffix))
+	keyWithSuffix = append(keyWithSuffix, ed25519publicKey...)
+	keyWithSuffix = append(keyWithSuffix, webBundleIdSuffix...)
 
 	// StdEncoding is the standard base32 encoding, as defined in RFC 4648.
 	return strings.ToLower(base32.StdEncoding.EncodeToString(keyWithSuffix))
